@@ -432,3 +432,32 @@ impl Read for SimBufReader {
 pub fn call_budget(bytes: usize, faults: usize) -> u64 {
     4 * (bytes as u64 + faults as u64) + 64
 }
+
+/// A text sink that accepts `limit` bytes and then reports an error (a closed pipe
+/// behind `write!`): a whole piece is either taken or refused.
+pub struct FailingSink {
+    pub out: String,
+    pub limit: usize,
+    pub failed: bool,
+}
+
+impl FailingSink {
+    pub fn new(limit: usize) -> FailingSink {
+        FailingSink {
+            out: String::new(),
+            limit,
+            failed: false,
+        }
+    }
+}
+
+impl std::fmt::Write for FailingSink {
+    fn write_str(&mut self, s: &str) -> std::fmt::Result {
+        if self.failed || self.out.len() + s.len() > self.limit {
+            self.failed = true;
+            return Err(std::fmt::Error);
+        }
+        self.out.push_str(s);
+        Ok(())
+    }
+}
